@@ -20,6 +20,20 @@ CHECKS = {
             "DESIGN.md section 6 C19"),
 }
 
+TOWER_NOTE = "tower_rig mirrors main.rs' wiring (listener order, cache 6 / index 100); SimNode semantics (Appendix C) generate histories, RPC verdicts are inputs to validation; integers for users/transactions, no locator collisions, C17 assumed; design-level bounds: 1-2 users, 1-2 disputes, CACHE_N=2, IDX_N=IRR=3, RETRY_N=2 (MC_Tower configs in lib/mc_tower.py)"
+TOWER_TECH = 'TLA+ specification of the tower (Tower.tla) model-checked with TLC against property monitors (TowerProps.tla, MC_Tower.tla); implementation traces of the real Watcher/Responder/Gatekeeper/Carrier/ChainMonitor/InternalAPI validated step by step by Trace_Tower.tla (same monitors + allowed-successor check)'
+CHECKS.update({
+    "C01": ("model_checking", TOWER_TECH, 'Model checking: TLC explores every environment behaviour (requests, blocks, reorgs, free node verdicts) of the bounded MC_Tower configs and evaluates the C01 (breach answered / dropped) monitors on every step. Conformance: hundreds of targeted and seeded random histories are executed on the real tower components over SQLite and a simulated bitcoind; every observed step is checked by TLC against the same monitors and against the successor Tower.tla allows (per-component comparison of users/appointments/trackers/heights/RPCs), so a code change breaking the property shows up as a rejected step.', TOWER_NOTE, "DESIGN.md section 6 C01"),
+    "C02": ("model_checking", TOWER_TECH, 'Model checking: TLC explores every environment behaviour (requests, blocks, reorgs, free node verdicts) of the bounded MC_Tower configs and evaluates the C02 (justified submissions, trackers only for penalties the node has) monitors on every step. Conformance: hundreds of targeted and seeded random histories are executed on the real tower components over SQLite and a simulated bitcoind; every observed step is checked by TLC against the same monitors and against the successor Tower.tla allows (per-component comparison of users/appointments/trackers/heights/RPCs), so a code change breaking the property shows up as a rejected step.', TOWER_NOTE, "DESIGN.md section 6 C02"),
+    "C04": ("model_checking", TOWER_TECH, 'Model checking: TLC explores every environment behaviour (requests, blocks, reorgs, free node verdicts) of the bounded MC_Tower configs and evaluates the C04 (re-announce, rebroadcast cadence, confirmation on the active chain, completion iff buried) monitors on every step. Conformance: hundreds of targeted and seeded random histories are executed on the real tower components over SQLite and a simulated bitcoind; every observed step is checked by TLC against the same monitors and against the successor Tower.tla allows (per-component comparison of users/appointments/trackers/heights/RPCs), so a code change breaking the property shows up as a rejected step.', TOWER_NOTE, "DESIGN.md section 6 C04"),
+    "C06": ("model_checking", TOWER_TECH, 'Model checking: TLC explores every environment behaviour (requests, blocks, reorgs, free node verdicts) of the bounded MC_Tower configs and evaluates the C06 (authentication, nothing changes on refusal, isolation) monitors on every step. Conformance: hundreds of targeted and seeded random histories are executed on the real tower components over SQLite and a simulated bitcoind; every observed step is checked by TLC against the same monitors and against the successor Tower.tla allows (per-component comparison of users/appointments/trackers/heights/RPCs), so a code change breaking the property shows up as a rejected step.', TOWER_NOTE + "; malformed signatures recover to no registered key (negligible probability otherwise)", "DESIGN.md section 6 C06"),
+    "C07": ("model_checking", TOWER_TECH, 'Model checking: TLC explores every environment behaviour (requests, blocks, reorgs, free node verdicts) of the bounded MC_Tower configs and evaluates the C07 (charge/refund arithmetic, three copies, conservation) monitors on every step. Conformance: hundreds of targeted and seeded random histories are executed on the real tower components over SQLite and a simulated bitcoind; every observed step is checked by TLC against the same monitors and against the successor Tower.tla allows (per-component comparison of users/appointments/trackers/heights/RPCs), so a code change breaking the property shows up as a rejected step.', TOWER_NOTE + "; the slot formula is exercised at the boundary sizes, not for every blob length (DESIGN.md section 7)", "DESIGN.md section 6 C07"),
+    "C08": ("model_checking", TOWER_TECH, 'Model checking: TLC explores every environment behaviour (requests, blocks, reorgs, free node verdicts) of the bounded MC_Tower configs and evaluates the C08 (receipt signature and fields, start block, read-back) monitors on every step. Conformance: hundreds of targeted and seeded random histories are executed on the real tower components over SQLite and a simulated bitcoind; every observed step is checked by TLC against the same monitors and against the successor Tower.tla allows (per-component comparison of users/appointments/trackers/heights/RPCs), so a code change breaking the property shows up as a rejected step.', TOWER_NOTE + "; receipts verified with teos_common::receipts::*::verify (the client's verifier)", "DESIGN.md section 6 C08"),
+    "C09": ("model_checking", TOWER_TECH, 'Model checking: TLC explores every environment behaviour (requests, blocks, reorgs, free node verdicts) of the bounded MC_Tower configs and evaluates the C09 (expiry, renewal, purge exactness) monitors on every step. Conformance: hundreds of targeted and seeded random histories are executed on the real tower components over SQLite and a simulated bitcoind; every observed step is checked by TLC against the same monitors and against the successor Tower.tla allows (per-component comparison of users/appointments/trackers/heights/RPCs), so a code change breaking the property shows up as a rejected step.', TOWER_NOTE, "DESIGN.md section 6 C09"),
+    "C11": ("model_checking", TOWER_TECH + "; every history runs under a panic hook with a liveness probe", 'Model checking: TLC explores every environment behaviour (requests, blocks, reorgs, free node verdicts) of the bounded MC_Tower configs and evaluates the no-abort (the specification has no aborting step: any panic observed is a violation) monitors on every step. Conformance: hundreds of targeted and seeded random histories are executed on the real tower components over SQLite and a simulated bitcoind; every observed step is checked by TLC against the same monitors and against the successor Tower.tla allows (per-component comparison of users/appointments/trackers/heights/RPCs), so a code change breaking the property shows up as a rejected step.',
+            TOWER_NOTE + "; sequential part only so far (lock-order / circular-wait exploration belongs to the concurrency rig)", "DESIGN.md section 6 C11"),
+})
+
 NOT_YET = {
 }
 
